@@ -88,8 +88,10 @@ def outcome(fn, *a, **kw):
 
 def infer(models, options):
     """samples -> merged, named ModelRegistry (the part of the pipeline before layout)."""
+    st = options.get("str_types", ["int", "float", "bool"])
     gen = MetadataGenerator(
-        str_types_registry=build_str_registry(options.get("str_types", ["int", "float", "bool"])),
+        # "default": the process-global default registry (what a library user gets without passing one)
+        str_types_registry=None if st == "default" else build_str_registry(st),
         dict_keys_regex=[rf"^{r}$" for r in options.get("dict_keys_regex", [])],
         dict_keys_fields=list(options.get("dict_keys_fields", [])),
     )
